@@ -446,10 +446,10 @@ Definition is_value_demand (d : demand) : bool :=
    the finding class this case belongs to (None: not a known class) *)
 Definition kf_missing (fm : form) (has_dims : bool) (k1 k2 : kind) : option string :=
   if impl_supported fm has_dims k1 k2 then None
-  else if is_rc k1 && kind_eqb k1 k2 then Some "C12-rc-identity"
-  else if is_numeric k1 && is_numeric k2 && (is_rc k1 || is_rc k2) then Some "C12-rc-cross"
+  else if is_rc k1 && kind_eqb k1 k2 then Some "rc-identity"
+  else if is_numeric k1 && is_numeric k2 && (is_rc k1 || is_rc k2) then Some "rc-cross"
   else match fm with
-       | FOpt | FSet => if is_int k1 && is_int k2 then Some "C12-gate-narrowing" else None
+       | FOpt | FSet => if is_int k1 && is_int k2 then Some "gate-narrowing" else None
        | _ => None
        end.
 
@@ -477,7 +477,7 @@ Definition judge_value (kfa : kfa_t) (fm : form) (has_dims : bool) (k1 : kind) (
                 if val_meets k2 d v' then
                   v_ok (match d with DSame _ => "same" | DInf _ => "infinity" | _ =>
                           if is_float k1 && is_int k2 then "trunc-clamp" else "exact" end)
-                else if kfa k1 v k2 v' then v_kf "C12-float-r64-approx"
+                else if kfa k1 v k2 v' then v_kf "float-r64-approx"
                 else v_bad "wrong-value" (demand_sx d)
             | None => v_bad "unreadable-value" (demand_sx d)
             end
@@ -542,7 +542,7 @@ Definition judge_mat (kfa : kfa_t) (k1 : kind) (m : mat sx) (k2 : kind) (dims : 
       | OVal (KM kn m') =>
           if kind_eqb k1 KBool && String.eqb kn (kind_name k2) && Nat.eqb (mrows m') r && Nat.eqb (mcols m') c
              && bool_matrix_prediction k2 vs (mdata m')
-          then v_kf "C12-bool-matrix" else v_bad "expected-error" (Ax "err")
+          then v_kf "bool-matrix" else v_bad "expected-error" (Ax "err")
       | _ => v_bad "expected-error" (Ax "err")
       end
     else
@@ -558,7 +558,7 @@ Definition judge_mat (kfa : kfa_t) (k1 : kind) (m : mat sx) (k2 : kind) (dims : 
           | None => v_bad "wrong-element-count" (Zx (Z.of_nat (List.length vs)))
           | Some evs =>
               if existsb (ev_is EBad) evs then v_bad "wrong-element" (Lx (map demand_sx ds))
-              else if existsb (ev_is EApprox) evs then v_kf "C12-float-r64-approx"
+              else if existsb (ev_is EApprox) evs then v_kf "float-r64-approx"
               else if existsb (ev_is EFree) evs then v_adv "partly-unfixed"
               else v_ok (match dims with
                          | Some _ => if Nat.eqb (mrows m) r && Nat.eqb (mcols m) c then "mat-same-shape" else "reshape"
